@@ -33,6 +33,19 @@ too large for the quadratic clauses: sort-based duplicate test and `bad:differs_
 being proven to satisfy the definition), and in mode 1 only `bad:decoy_protein_not_listed`.
 
 ```
+chunkdb <k> <seed> <drop 0|1> <kfree 0|1> <arguments of db8>
+  | panic
+  | ok <npep> {peptide}*npep F <nfrag> [pairs] shuf <n> <ndiff> pool <n> <ndiff> ksz <n> <ndiff>
+```
+The chunked prefilter path (`Model/C08.lean`, `prefilterBuild`): per-chunk `buildDb`, subset rule, `reorder` of the
+concatenation; compared exactly. Spec on the implementation's reply: `bad:concatenation_order_dependent`,
+`bad:thread_dependent`, `bad:chunk_size_dependent` (the implementation against itself), the clauses of `specVerdict`
+against the per-chunk sources recomputed from the request text (decoys judged against the targets of their own
+chunk), `bad:same_form_twice_masses_differ_by_rounding` (two entries with the same sequence and modifications; the
+quadratic clause with the mass in the key having passed, they differ in the f32 mass only: known finding),
+`bad:decoy_has_target_sequence` (not evaluated when the request has `[` / `]` modifications or drops a subset).
+
+```
 db8t <k> <threads>*k <arguments of db8>
   | panic
   | ok <pre> <npep> {peptide}*npep T <k> {<threads> <npep_t> <ndup_t> <nbad_t> <digest_t>}*k
@@ -270,6 +283,74 @@ def handle (op : String) (args impl : List String) : Option Reply :=
           if out.length != db.length || !((peps.zip (db.map toW)).all fun (a, b) => sameEntry a b) then
             "bad:differs_from_proven_model"
           else "ok"
+      pure (exact model (" ".intercalate impl) spec)
+  | "chunkdb" => do
+    -- `chunkdb <k> <seed> <drop> <kfree> <arguments of db8>`
+    let ((k, seed, drop, kfree), rest) ← runPrefix (do
+      let k ← nat; let seed ← nat; let drop ← bool; let kfree ← bool; pure (k, seed, drop, kfree)) args
+    let r ← run request rest
+    let vars : List (C06.Target × F) := (C06.validateVar r.vars).map fun tm => (tm.1, f32b tm.2)
+    let statics : List (C06.Target × F) := (C06.validate r.statics).map fun tm => (tm.1, f32b tm.2)
+    let implR : Option (List WPep × Nat × List (Nat × Nat) × (Nat × Nat) × (Nat × Nat) × (Nat × Nat)) :=
+      run (do
+        kw "ok"; let peps ← list wpep; kw "F"; let nfrag ← nat
+        let frags ← if r.frag then listN (do let i ← nat; let m ← nat; pure (i, m)) nfrag else pure []
+        kw "shuf"; let s1 ← nat; let s2 ← nat
+        kw "pool"; let t1 ← nat; let t2 ← nat
+        kw "ksz"; let k1 ← nat; let k2 ← nat
+        pure (peps, nfrag, frags, (s1, s2), (t1, t2), (k1, k2))) impl
+    let echo : String := match implR with
+      | some (_, _, _, sh, pl, ks) => s!"shuf {sh.1} 0 pool {pl.1} 0 ksz {ks.1} 0"
+      | none => "shuf 0 0 pool 0 0 ksz 0 0"
+    let built : Option (Cfg F × List (C05.Seq × C05.Seq) × List (List (DbPep F))) := do
+      let par ← r.enz.toParams
+      let targets ← C05.parse r.tag r.gen (fastaText r.recs)
+      let cfg : Cfg F := { par, tag := r.tag, gen := r.gen, h2o := C06.H2Of, table := C06.tableF, vars, statics,
+                           maxVar := if r.maxVar == 0 then 1 else r.maxVar, lo := f32b r.lo, hi := f32b r.hi }
+      if k == 0 then none else
+      let dbs ← chunkDbs cfg targets k
+      pure (cfg, targets, dbs)
+    match built with
+    | none => pure (exact "panic" (" ".intercalate impl) "na")
+    | some (cfg, targets, dbs) =>
+      let db := reorder (prefilterConcat seed drop dbs)
+      let frags := (C09.bitsOf (fragmentsOf C09.constsF (kindsOf r.kinds) r.minIon C06.tableF db)).mergeSort C09.lePair
+      let fragText := if r.frag then " " ++ " ".intercalate (frags.map fun f => s!"{f.1} {f.2}") else ""
+      let model := s!"ok {outList renderW (db.map toW)} F {frags.length}{fragText} {echo}"
+      -- chunk-size independence is claimed only where the build has no decoys at all and no per-chunk choice
+      let hasTagged := r.recs.any fun rec => C05.containsSub rec.1 r.tag
+      let kfreeOk := !r.gen && !hasTagged && !(r.enz.semi.getD false) && !drop
+      let protTerminal := (r.vars.map (·.1) ++ r.statics.map (·.1)).any fun key => key.head? == some 91 || key.head? == some 93
+      let spec : String :=
+        match implR with
+        | none => if impl == ["panic"] then "na" else "bad:reply_unreadable"
+        | some (peps, _, _, sh, pl, ks) =>
+          if kfree && !kfreeOk then "bad:request_claims_chunk_size_independence_wrongly" else
+          if sh.2 != 0 then "bad:concatenation_order_dependent" else
+          if pl.2 != 0 then "bad:thread_dependent" else
+          if ks.2 != 0 then "bad:chunk_size_dependent" else
+          let out := peps.map ofW
+          if !clSorted out then "bad:not_sorted_by_mass" else
+          if !clProteinsSorted out then "bad:proteins_not_sorted_set" else
+          -- sources from the FASTA text of the request (record-level definition), chunk by chunk
+          let specTargets : List (C05.Seq × C05.Seq) :=
+            match C05.specFasta r.tag r.gen ((C05.splitNL (fastaText r.recs)).map C05.trim) with
+            | some ts => ts
+            | none => targets
+          let cs := chunkContribs cfg specTargets k seed drop dbs
+          let v := if out.length * cs.length ≤ 4000000 then specVerdict cs out
+            else if !noDupSorted out then "bad:duplicate_key"
+            else if out.length != db.length || !((peps.zip (db.map toW)).all fun (a, b) => sameEntry a b) then
+              "bad:differs_from_proven_model"
+            else "ok"
+          if v != "ok" then v else
+          -- the key of the property text has no mass in it: two entries with the same sequence and modifications
+          -- can only differ in the f32 mass (the one summed in mirror order) — narrow clause of the known finding
+          if !clNoDupForm out then "bad:same_form_twice_masses_differ_by_rounding" else
+          -- C07's clause. As coded it can fail in two situations, in which it is not evaluated: with protein-terminal
+          -- modifications a decoy form of a mirror-image target of another chunk may carry a modification its target
+          -- twin cannot have; with a dropped subset the target twin of a surviving decoy form may have been dropped
+          if !protTerminal && !drop && !clDecoyNotTargetSeq out then "bad:decoy_has_target_sequence" else "ok"
       pure (exact model (" ".intercalate impl) spec)
   | _ => none
 
